@@ -6,6 +6,7 @@ dealt to "workers" (blocks), each block's statistics are accumulated by the real
 GMMStats travel shared or copied, and a seeded merge schedule combines them with
 +, reversed +, += and functools.reduce(operator.iadd) (DESIGN.md §5.1).
 """
+import copy as _copy
 import functools
 import operator
 
@@ -148,7 +149,7 @@ def gen_case(rng, tier, n=None, blocks=None, merge=None):
         "kind": "mapreduce",
         "gmm": gmm, "X": L(X), "blocks": blocks, "backends": backends,
         "entry": rng.choice(["acc_stats", "acc_stats", "transform"]),
-        "transfer": [rng.choice(["shared", "copied"]) for _ in range(nb)],
+        "transfer": [rng.choice(["shared", "shared", "copied", "copied", "relaid"]) for _ in range(nb)],
         "merge": merge if merge is not None else _gen_merge(rng, nb),
         "lazy": lazy,
         "acc_how": rng.choice(["fresh", "reset", "resize", "init_fields"]),
@@ -335,6 +336,14 @@ def run_case(case, replay=None):
         if case["transfer"][i] == "copied":
             st = cloudpickle.loads(cloudpickle.dumps(st))
             rec.faults["F3_input_copies"] += 1
+        elif case["transfer"][i] == "relaid" and not _is_lazy(st):
+            # the partial's arrays were re-assembled by the caller in another memory layout
+            st = _copy.deepcopy(st)
+            st.sum_px = np.asfortranarray(np.asarray(st.sum_px))
+            big = np.zeros(tuple(2 * k for k in np.shape(st.sum_pxx)))
+            big[::2, ::2] = np.asarray(st.sum_pxx)
+            st.sum_pxx = big[::2, ::2]
+            rec.probe("partial_with_non_contiguous_arrays")
         pool.append(st)
     if any(_is_lazy(st) for st in pool):
         rec.probe("lazy_merge")
@@ -369,7 +378,6 @@ def run_case(case, replay=None):
             _ms = None
             rec.probe("repo_reduction_unavailable")
         if _ms is not None:
-            import copy as _copy
             mm = _copy.deepcopy(m)
             mm.update_means = mm.update_variances = mm.update_weights = True
             try:
@@ -387,7 +395,6 @@ def run_case(case, replay=None):
 
     # ---------------- accumulation into a fresh / reset / resized container ----------------
     if not any(_is_lazy(st) for st in pool):
-        import copy as _copy
         how = case.get("acc_how", "fresh")
         cc, dd = pool[0].n_gaussians, pool[0].n_features
         try:
@@ -505,7 +512,6 @@ def run_case(case, replay=None):
                                 {"field": bad[0], "err": bad[1], "bound": bad[2], "blocks": blocks,
                                  "merge": case["merge"]}, **rec.fields())
     if repo_red is not None:
-        import copy as _copy
         from bob.learn.em import gmm as _gmm_mod
         mm = _copy.deepcopy(m)
         mm.update_means = mm.update_variances = mm.update_weights = True
